@@ -358,3 +358,42 @@ func checkTopLevelLimit(c *core.Ctx, rule string) {
 	c.Decide(expectsInt, rule, key+"/type", tcCall.Pos(), 1, "typechecked against the expected type Int",
 		"the limit expression is typechecked without an expected type (callee "+callee+"): a String, Float or NULL limit is accepted and read through the Int payload, which is 0 — the query prints nothing and exits 0")
 }
+
+// checkOrderByOrdinal (ORDPOS): in SQL `ORDER BY 2` names the second select expression. A translation that takes the
+// integer literal as an ordinary expression sorts by a constant — i.e. not at all, and the direction is ignored — so
+// the literal must be resolved to the select expression or rejected.
+func checkOrderByOrdinal(c *core.Ctx, rule string) {
+	p := c.Prog
+	fn := p.Func("parser", "parseOrderByExpressions")
+	key := "parser.parseOrderByExpressions/integer literal key"
+	if fn == nil {
+		c.Unknown(rule, key, 0, "anchor not found")
+		return
+	}
+	c.SawFunc("parser.parseOrderByExpressions")
+	handled := false
+	ast.Inspect(fn.Decl.Body, func(n ast.Node) bool {
+		is, ok := n.(*ast.IfStmt)
+		if !ok {
+			return true
+		}
+		txt := core.FullStr(is)
+		if strings.Contains(txt, "sqlparser.SQLVal") && strings.Contains(txt, "IntVal") {
+			// rejected (a return with an error) or resolved (the key is replaced by something that is not the literal)
+			ast.Inspect(is.Body, func(m ast.Node) bool {
+				switch v := m.(type) {
+				case *ast.ReturnStmt:
+					if len(v.Results) > 0 && !core.IsNilIdent(fn.Info(), v.Results[len(v.Results)-1]) {
+						handled = true
+					}
+				case *ast.AssignStmt:
+					handled = true
+				}
+				return true
+			})
+		}
+		return true
+	})
+	c.Decide(handled, rule, key, fn.Decl.Pos(), 1, "an integer literal sort key is resolved or rejected",
+		"an integer literal in ORDER BY is translated as a constant expression: `ORDER BY 2 DESC, 1 DESC LIMIT 3` sorts by nothing and returns the three smallest records instead of the three largest by the second column, and an out-of-range position is accepted")
+}
